@@ -52,7 +52,9 @@ fn body(name: &str, v: &[u64]) -> Result<(), String> {
             Ok(())
         }
         n if n.starts_with("c18_purity") => {
-            let (mut a, mut b) = (Generator::create(g(0)), Generator::create(g(0)));
+            let m = (1u64 << 31) - 1;
+            let seed = if n == "c18_purity_multiples_of_modulus" { [0, m, 2 * m, 1000 * m, 4294967296 * m, 8589934588 * m][(g(0) as usize).min(5)] } else { g(0) };
+            let (mut a, mut b) = (Generator::create(seed), Generator::create(seed));
             if a.generate(0.0, 1.0).to_bits() != b.generate(0.0, 1.0).to_bits() || a.generate(0.0, 1.0).to_bits() != b.generate(0.0, 1.0).to_bits() {
                 return Err("two generators with the same seed diverge".into());
             }
